@@ -33,6 +33,7 @@ func init() {
 			{ID: "C09.R11", Floor: 2, Run: narrowCounters, Text: "narrow counters fit their limit: every uint8/uint16 field of package ecs that is incremented has a listed bound (lock bits issued ≤ MaskTotalBits, slots per idMap chunk), and the bound fits the field's type in this build - the lock-bit pool must survive the documented maximum of simultaneously open queries"},
 			{ID: "C09.R12", Floor: 1, Run: lockMaskValidateFirst, Text: "the lock mask validates before it changes: no write to the lock mask or the lock-bit pool precedes a test whose failing edge panics"},
 			{ID: "C09.R6", Floor: 2, Run: c09r6, Text: "the lock-bit pool's array length and the constant in its exhaustion guard (panic edge dominating the array write) both equal MaskTotalBits of the build"},
+			{ID: "C09.R13", Floor: 1, Run: internalQueriesExhausted, Text: "queries opened inside the library are run to the end: a local Query is exhausted (Next() == false) or closed on every path to a return"},
 		},
 	})
 }
